@@ -29,12 +29,13 @@ func idKey(b []byte) string {
 }
 
 type refInvite struct {
-	id      string
-	key     string // idKey of the invite public key
-	open    bool   // anyone-can-join
-	perm    Perm
-	created int // record index
-	revoked int // record index of the revoke, -1 while live
+	id         string
+	key        string // idKey of the invite public key
+	open       bool   // anyone-can-join
+	perm       Perm
+	created    int // record index
+	createdPos int // index of the content item that created it
+	revoked    int // record index of the revoke, -1 while live
 }
 
 type refGen struct {
@@ -54,6 +55,7 @@ type blob struct {
 type rotation struct {
 	rec         int
 	where       string // stand-alone | account-remove | batch
+	pos         int    // index of the content item that carries it
 	gotAccounts []string
 	gotInvites  []string
 	expAccounts []string
@@ -79,6 +81,17 @@ type refModel struct {
 func (m *refModel) liveOpenInviteKeys() (out []string) {
 	for _, iv := range m.invites {
 		if iv.open && iv.revoked < 0 {
+			out = append(out, iv.key)
+		}
+	}
+	sort.Strings(out)
+	return
+}
+
+// liveOpenInviteKeysAt: the live open invites except those created by record rec at a content position after pos.
+func (m *refModel) liveOpenInviteKeysAt(rec, pos int) (out []string) {
+	for _, iv := range m.invites {
+		if iv.open && iv.revoked < 0 && !(iv.created == rec && iv.createdPos > pos) {
 			out = append(out, iv.key)
 		}
 	}
@@ -159,12 +172,13 @@ func walk(s *Sim) (*refModel, error) {
 		author := m.names[idKey(rec.Identity)]
 		var rots []*rotation
 		nRevokes := 0
+		pos := 0 // index of the content item being decoded
 		addRotation := func(rk *aclrecordproto.AclReadKeyChange, where string) {
 			if rk == nil {
 				return
 			}
 			m.gens = append(m.gens, refGen{id: rw.Id, intro: i, encOld: rk.EncryptedOldReadKey})
-			r := &rotation{rec: i, where: where}
+			r := &rotation{rec: i, where: where, pos: pos}
 			for _, ak := range rk.AccountKeys {
 				r.gotAccounts = append(r.gotAccounts, idKey(ak.Identity))
 				m.blobs = append(m.blobs, blob{"rotation-account", i, idKey(ak.Identity), ak.EncryptedReadKey})
@@ -177,12 +191,13 @@ func walk(s *Sim) (*refModel, error) {
 			sort.Strings(r.gotInvites)
 			rots = append(rots, r)
 		}
-		for _, c := range data.AclContent {
+		for ci, c := range data.AclContent {
+			pos = ci
 			switch {
 			case c.GetInvite() != nil:
 				iv := c.GetInvite()
 				open := iv.InviteType == aclrecordproto.AclInviteType_AnyoneCanJoin
-				m.invites = append(m.invites, &refInvite{id: rw.Id, key: idKey(iv.InviteKey), open: open, perm: iv.Permissions, created: i, revoked: -1})
+				m.invites = append(m.invites, &refInvite{id: rw.Id, key: idKey(iv.InviteKey), open: open, perm: iv.Permissions, created: i, createdPos: ci, revoked: -1})
 				if len(iv.EncryptedReadKey) > 0 {
 					m.blobs = append(m.blobs, blob{"invite", i, idKey(iv.InviteKey), iv.EncryptedReadKey})
 				}
@@ -250,7 +265,9 @@ func walk(s *Sim) (*refModel, error) {
 		}
 		for _, r := range rots {
 			r.expAccounts = m.members()
-			r.expInvites = m.liveOpenInviteKeys()
+			// an invite created by a later item of this same record carries its own copy of the read key: it is not
+			// a recipient of a rotation that lands before it exists
+			r.expInvites = m.liveOpenInviteKeysAt(i, r.pos)
 			if nRevokes > 0 {
 				m.events["revoke+rotate-batch"]++
 			}
